@@ -4,6 +4,8 @@ import (
 	"strings"
 	"time"
 
+	"perkeep.org/pkg/blob"
+
 	"verifharness/hk"
 )
 
@@ -11,7 +13,41 @@ import (
 func Run(r *hk.Run) {
 	r.Res.Rule = "a case = one random storage tree (depth ≤ 3; inner namespace, proxycache[max] over memcache[max] or a store, overlay, shard, replica, cond; leaves memory, some localdisk/diskpacked) whose EVERY leaf sits behind a fault wrapper with its own call schedule (call i of that leaf: none / fails before any effect / takes effect but answers an error), and a history of single-key receive/fetch/stat/remove and enumerate; thorough: for a history, one case per (leaf, call index the healthy run makes, failure kind) = single faults exhaustively, plus random bursts; every op under a watchdog. Oracle: three-valued reference map (a failed receive/remove leaves its key undetermined until the next successful read resolves it); an error answer needs an injected failure, every other answer must be exact for some resolution, and once all schedules are exhausted the store must answer exactly like the reference map. distinct_nontrivial = distinct (tree shape, schedule pattern) pairs in which at least one failure was injected and the quiet continuation was reached"
 	genCases(r)
+	mechanisms(r)
 	probes(r)
+}
+
+// mechanisms exercises the property's anchored mechanisms that sit below the Storage interface
+// (VFS and index failures inside a leaf backend, the enumeration helper) with their own oracles.
+func mechanisms(r *hk.Run) {
+	// files.ReceiveBlob: a failure at each of its steps leaves no temp file, no visible blob, and the
+	// store accepts the blob afterwards
+	o, st := childProbe(r, "probe filesrecv", 60*time.Second)
+	f := strings.Fields(o)
+	ok := st == "exit0" && len(f) == 8
+	for _, x := range f[min(1, len(f)):] {
+		if !strings.HasSuffix(x, ":err/files=0/fetch=notexist/listed=0/retry=ok/bytes") {
+			ok = false
+		}
+		r.Hit("mechanism:temp-file-removed-on-receive-error")
+	}
+	if !ok {
+		r.Fail("files-receive-error-leaves-residue", "files.ReceiveBlob with a VFS failure at each step", "err, no file left, not visible, retry ok", o+" ["+st+"]", []string{"probe filesrecv"})
+	}
+	// diskpacked.append: the index write fails (no roll-over): the pack is truncated back, the blob is
+	// not visible, later receives and the re-index work
+	o, st = childProbe(r, "probe dpundo", 60*time.Second)
+	r.Hit("mechanism:diskpacked-append-undone")
+	if want := "dpundo recv=ok faulted-recv=err truncated-back=true fetch=notexist listed=1 retry=ok next=ok fetch-all=bytes,bytes,bytes, reindex=ok"; o != want || st != "exit0" {
+		r.Fail("diskpacked-append-not-undone", "diskpacked receive whose index Set fails", want, o+" ["+st+"]", []string{"probe dpundo"})
+	}
+	// EnumerateAll: a source that breaks off with an error: the error is returned, not while the
+	// callback runs, and the callback is not called afterwards
+	o, st = childProbe(r, "probe enumall", 60*time.Second)
+	r.Hit("mechanism:enumeration-helper-waits-for-callback")
+	if want := "enumall faulted=err/callback-running-at-return=0 callbacks-after-return=0 healthy=ok/5"; o != want || st != "exit0" {
+		r.Fail("enumerate-all-returns-during-callback", "blobserver.EnumerateAll over a source that fails after sending", want, o+" ["+st+"]", []string{"probe enumall"})
+	}
 }
 
 func childProbe(r *hk.Run, line string, timeout time.Duration) (string, string) {
@@ -34,8 +70,8 @@ func inproc(r *hk.Run, lines ...string) []string {
 
 // probes re-executes the witness of every finding of C13.
 func probes(r *hk.Run) {
-	b := mkBlob(hk.NewRand(7))
-	k, v := hk.Hex([]byte(b.key)), hk.Hex(b.val)
+	pv := []byte("c13 probe blob")
+	k, v := hk.Hex([]byte(blob.RefFromBytes(pv).String())), hk.Hex(pv)
 	child := func(line string) (string, string) { return childProbe(r, line, 90*time.Second) }
 
 	// F-C13-1 (row 1): StatBlobsParallelHelper leaks a gate slot per cancelled call
